@@ -24,12 +24,15 @@ package c04
 //	                                  (or serves something above the tip, or does not serve a chain height)
 //	c04-finalized-id-served-changed   the ID an accessor serves for a finalized height differs from the ID the same
 //	                                  accessor served for it earlier (since the height was finalized)
+//	c04-served-id-not-hash-of-header  a served header carries an ID that is not the hash of its serialisation (blocks
+//	                                  arrive canonically and NON-canonically encoded: ParseBlock nc=1)
 //	c04-lookup-panic                  an accessor panicked
 //
 // Nothing here reads the block cache or any other in-memory index of the code under test.
 
 import (
 	"bytes"
+	"crypto/sha256"
 	"fmt"
 	"math/rand"
 	"strings"
@@ -204,7 +207,15 @@ func (servedProp) Generate(rng *rand.Rand, tier string) []corr.Case {
 		if len(r.Ops) < 2 {
 			continue
 		}
-		cases = append(cases, corr.Case{Ops: r.Ops, Tag: fmt.Sprintf("served-v%d-cache%d+", i%3, cacheSize) + strings.Join(tags, "+")})
+		// a third of the blocks arrive non-canonically encoded (ParseBlock nc=1): same block, same ID - whatever path
+		// (cache, database after eviction, database after a restart) serves it later
+		ops := append([]string{}, r.Ops...)
+		for j, op := range ops {
+			if (strings.HasPrefix(op, "proc ") || strings.HasPrefix(op, "pv ")) && rng.Intn(3) == 0 {
+				ops[j] = op + " nc=1"
+			}
+		}
+		cases = append(cases, corr.Case{Ops: ops, Tag: fmt.Sprintf("served-v%d-cache%d+", i%3, cacheSize) + strings.Join(tags, "+")})
 	}
 	return cases
 }
@@ -348,6 +359,11 @@ func (s *servedState) check(r *Runner) {
 		a := answer{api: "GetBlockHeaderByHeight", err: err}
 		if err == nil && hd != nil {
 			a.id = hd.ID
+			// the block ID is the hash of the (canonically) serialised header: an ID that is anything else changes
+			// as soon as the header is read back from the database
+			if sum := sha256.Sum256(hd.Encode()); !bytes.Equal(sum[:], hd.ID) {
+				s.bad(r, "c04-served-id-not-hash-of-header", fmt.Sprint(h), "tip %d (cache %d): GetBlockHeaderByHeight(%d) serves a header with ID %s whose serialisation hashes to %s", tip, cache, h, short(hd.ID), short(sum[:]))
+			}
 		}
 		as = append(as, a)
 		blk, err := da.GetBlockByHeight(h)
